@@ -362,24 +362,68 @@ def as_rat(x):
 ATOM_ARGS: dict = {}     # function atom -> (name, [Rat args])
 
 
+def _frac_gcd(a: Fraction, b: Fraction) -> Fraction:
+    from math import gcd
+    if a == 0:
+        return abs(b)
+    if b == 0:
+        return abs(a)
+    return Fraction(gcd(a.numerator * b.denominator, b.numerator * a.denominator),
+                    a.denominator * b.denominator)
+
+
+def p_content(p, scale_atoms=("pi",)):
+    """(positive rational content, {scale atom: min exponent}) of a polynomial"""
+    c = Fraction(0)
+    exps = None
+    for m, v in p.items():
+        c = _frac_gcd(c, v)
+        d = {a: e for a, e in m if a in scale_atoms}
+        if exps is None:
+            exps = d
+        else:
+            exps = {a: min(e, d[a]) for a, e in exps.items() if a in d}
+    return (c if c else Fraction(1)), (exps or {})
+
+
+def split_content(r: "Rat"):
+    """r = content * primitive, content = q * pi^k (q > 0 rational)"""
+    cn, en = p_content(r.num)
+    cd, ed = p_content(r.den)
+    q = cn / cd
+    k = en.get("pi", 0) - ed.get("pi", 0)
+    content = Rat.const(q) * (Rat.atom("pi") ** k if k else Rat.const(1))
+    return content, q, k, r / content
+
+
 def sqrt_of(r: Rat) -> Rat:
-    """square root as an atom with relation atom^2 = r.  Rational perfect
-    squares fold; a radicand equal (as a normal form) to an earlier one reuses
-    that atom."""
+    """square root as an atom with relation atom^2 = r.  Positive content that
+    is a perfect square (rational squares, even powers of pi) is pulled out;
+    a radicand equal (as a normal form) to an earlier one reuses that atom."""
+    from math import isqrt
     r = as_rat(r)
+    if r.is_zero():
+        return Rat.const(0)
+    content, q, k, prim = split_content(r)
+    n, d = q.numerator, q.denominator
+    outside = Rat.const(1)
+    if isqrt(n) ** 2 == n and isqrt(d) ** 2 == d and k % 2 == 0:
+        outside = Rat.const(Fraction(isqrt(n), isqrt(d))) * (Rat.atom("pi") ** (k // 2) if k else Rat.const(1))
+        r = prim
     if r.is_const():
         v = r.const_value()
-        if v >= 0:
-            from math import isqrt
+        if v == 1:
+            return outside
+        if v > 0:
             n, d = v.numerator, v.denominator
             if isqrt(n) ** 2 == n and isqrt(d) ** 2 == d:
-                return Rat.const(Fraction(isqrt(n), isqrt(d)))
+                return outside * Rat.const(Fraction(isqrt(n), isqrt(d)))
     for a, rad in RADICAND.items():
         if rad.equals(r):
-            return Rat.atom(a)
+            return outside * Rat.atom(a)
     a = "sqrt(%s)" % r.key()
     RADICAND[a] = r
-    return Rat.atom(a)
+    return outside * Rat.atom(a)
 
 
 def func_atom(name: str, *args) -> Rat:
